@@ -1,0 +1,75 @@
+//! Verification hooks, only compiled with the `koto_verif` feature
+//!
+//! Nothing in here changes the behaviour of the runtime: the hooks expose read-only snapshots of
+//! VM state and forward events to an optional thread-local observer.
+
+use koto_bytecode::{Chunk, Instruction};
+use std::{cell::RefCell, time::Duration};
+
+/// A read-only snapshot of a VM's execution state
+#[derive(Clone, Debug, Default, PartialEq, Eq)]
+pub struct VmState {
+    pub registers_len: usize,
+    pub register_base: usize,
+    pub min_frame_registers: usize,
+    pub call_stack_len: usize,
+    pub sequence_builders_len: usize,
+    pub string_builders_len: usize,
+    /// 0: Inactive, 1: Active, 2: Suspended
+    pub execution_state: u8,
+    /// The sum of the catch stack sizes of all frames in the call stack
+    pub catch_stack_total: usize,
+    /// The number of 'import in progress' placeholders in the module cache
+    pub module_cache_placeholders: usize,
+    /// The number of entries in the module cache
+    pub module_cache_len: usize,
+}
+
+/// An event forwarded to the thread's observer
+pub enum Event<'a> {
+    /// Emitted before an instruction gets executed
+    Instruction {
+        chunk: *const Chunk,
+        ip: u32,
+        instruction: &'a Instruction,
+        registers_len: usize,
+        register_base: usize,
+        required_registers: u8,
+        sequence_builders_len: usize,
+        string_builders_len: usize,
+        call_stack_len: usize,
+    },
+    /// An execution timeout has been set up on entry to the interpreter loop
+    TimeoutArmed { limit: Duration },
+    /// The deadline was polled and hasn't been reached yet
+    TimeoutPolled,
+    /// The deadline was polled and has been reached
+    TimeoutFired { overshoot: Duration },
+}
+
+type Observer = Box<dyn FnMut(&Event)>;
+
+thread_local! {
+    static OBSERVER: RefCell<Option<Observer>> = const { RefCell::new(None) };
+}
+
+/// Sets the observer for the current thread
+pub fn set_observer(observer: impl FnMut(&Event) + 'static) {
+    OBSERVER.with(|o| *o.borrow_mut() = Some(Box::new(observer)));
+}
+
+/// Removes the current thread's observer
+pub fn clear_observer() {
+    OBSERVER.with(|o| *o.borrow_mut() = None);
+}
+
+pub(crate) fn emit(event: &Event) {
+    OBSERVER.with(|o| {
+        // The observer must not re-enter the runtime, try_borrow_mut guards against misuse
+        if let Ok(mut o) = o.try_borrow_mut()
+            && let Some(observer) = o.as_mut()
+        {
+            observer(event)
+        }
+    });
+}
